@@ -120,8 +120,8 @@ func (t Tmpl) onlyOpaque() bool {
 const maxTmpls = 96
 
 type keyEvaluator struct {
-	c        *Ctx
-	undecide []string // reasons collected while evaluating
+	c         *Ctx
+	undecide  []string // reasons collected while evaluating
 	fieldMemo map[string][]Tmpl
 	fieldBusy map[string]bool
 	// phiLive, when set, prunes phi edges (specialisation on a boolean parameter)
@@ -409,6 +409,8 @@ func (k *keyEvaluator) evalCall(call *ssa.Call, idx int, env kenv, depth int, bu
 		return k.opaque("buffer", call)
 	case "strconv.Itoa", "strconv.FormatInt", "strconv.FormatUint":
 		return k.evalArg(cc.Args[0], env, depth, busy)
+	case "strconv.AppendInt", "strconv.AppendUint", "strconv.AppendBool", "strconv.AppendQuote", "strconv.AppendFloat":
+		return concat(k.eval(cc.Args[0], env, depth, busy), k.evalArg(cc.Args[1], env, depth, busy))
 	}
 	switch {
 	case full == "fmt.Sprintf":
